@@ -710,7 +710,9 @@ def fit_sig(c, o):
         return dict(clause="range_rejected", cls=cls)
     if o.get("o") == "ctor":
         t3d = c["trng"]["d"] == 3
-        return dict(clause="range_accepted", cls="t3d" if t3d else cls, t3d=t3d)
+        # an open result stop on a target that differs in size from the frame is refused for that reason (C11-F6d),
+        # with a 2-D and with a 3-D target range alike
+        return dict(clause="range_accepted", cls="t3d" if (t3d and cls != "open_component") else cls, t3d=t3d)
     return dict(clause="fitness_value", **fit_flags(c))
 
 
